@@ -71,6 +71,9 @@ func judge(v *verdict, quickTier bool, o *e2e.Origin, log1, log2 []e2e.Exchange,
 		if _, present := at[p]; present {
 			continue
 		}
+		if p != badRow && len(served1[p]) == 0 {
+			add("finished-without-a-request:"+kindOf(p), fmt.Sprintf("row %s is gone from lq.db at the instant (reported finished), but the origin was never asked for %s in the first run: nothing of it can be in the WARC files", p, p))
+		}
 		for _, tp := range tree[p] {
 			for _, e := range served1[tp] {
 				if !e.Sent {
@@ -88,7 +91,7 @@ func judge(v *verdict, quickTier bool, o *e2e.Origin, log1, log2 []e2e.Exchange,
 	// row that was not reported finished can never be crawled again
 	gone := 0
 	for _, p := range preloaded {
-		if _, present := at[p]; !present {
+		if _, present := at[p]; !present && p != badRow { // the value that does not parse goes from the consumer to the queue's finisher directly
 			gone++
 		}
 	}
@@ -107,8 +110,8 @@ func judge(v *verdict, quickTier bool, o *e2e.Origin, log1, log2 []e2e.Exchange,
 	sort.Strings(paths)
 	for _, p := range paths {
 		r := at[p]
-		if requested2[p] {
-			continue
+		if requested2[p] || p == badRow {
+			continue // a value that does not parse is never requested: the consumer reports it finished
 		}
 		left, stillThere := after[p]
 		switch {
@@ -178,6 +181,8 @@ func kindOf(p string) string {
 		return "404"
 	case "/hub":
 		return "page-with-outlink"
+	case badRow:
+		return "unparsable-value"
 	}
 	return "outlink"
 }
